@@ -210,7 +210,7 @@ func groupObligations(vs []Verdict) map[string]*Obligation {
 var safeSiteRe = regexp.MustCompile(`^(.*)/safe:([^#]+)#\d+$`)
 var disciplineRe = regexp.MustCompile(`^(.*)/(lockset|own|own-write|alias|alias-in):.+$`)
 var neverLocksRe = regexp.MustCompile(`^(.*)/never-locks:([^@]+)@acq#\d+$`)
-var siteFamilyRe = regexp.MustCompile(`^(.*)/((inv@[^#]*|requires@[^#]*|order|bcast-after-change|bcast-locked|notify-when:[^#]*)#)\d+(.*)$`)
+var siteFamilyRe = regexp.MustCompile(`^(.*)/((inv@[^#]*|requires@[^#]*|reentrant@[^#]*|order|bcast-after-change|bcast-locked|notify-when:[^#]*)#)\d+(.*)$`)
 var waitSiteRe = regexp.MustCompile(`^(.*)/cancellable:([^@]+)@wait#\d+$`)
 
 // ---------------------------------------------------------------------------------------------
